@@ -8,7 +8,7 @@
    below the cut (possibly none). *)
 From Coq Require Import List NArith.
 From RaftLog Require Import Base.Bytes Model.Types Model.Codec Model.Cache Model.Core Model.Recover Model.Run.
-From RaftLog Require Import Proofs.CodecFacts Proofs.ScanFacts Proofs.RecoverFacts.
+From RaftLog Require Import Model.Dump Proofs.CodecFacts Proofs.ScanFacts Proofs.RecoverFacts Proofs.JournalChunk Proofs.DumpFacts.
 Import ListNotations.
 Local Open Scope N_scope.
 
@@ -85,6 +85,19 @@ Proof. exact (RecoverFacts.C10_truncate_disabled cfg older id syn rs tl a Holder
 
 End C10.
 
+(* The Dump API on such a file (Model/Dump.v): exactly the complete records, each with
+   its offset and size, then ONE error item carrying the number of complete records:
+   UnexpectedEof for a cut inside a record or fewer than 28 zero bytes. *)
+Theorem C10_dump_torn : forall id rs r tl,
+  Forall wf_record rs -> wf_record r -> pprefix tl (enc_record r) -> tl <> [] ->
+  dump_file id (JournalChunk.encs rs ++ tl) = recs_items id 0 0 rs ++ [DErr id (length rs) SEof].
+Proof. exact DumpFacts.dump_file_torn. Qed.
+Theorem C10_dump_zero_tail_short : forall id rs z,
+  Forall wf_record rs -> (1 <= z)%nat -> (z < 28)%nat ->
+  dump_file id (JournalChunk.encs rs ++ zeros z) = recs_items id 0 0 rs ++ [DErr id (length rs) SEof].
+Proof. exact DumpFacts.dump_file_zero_tail_short. Qed.
+
+Print Assumptions C10_dump_torn.
 Print Assumptions C10_longest_prefix_open.
 Print Assumptions C10_truncate_disabled.
 Print Assumptions C10_every_cut_has_this_shape.
